@@ -486,9 +486,16 @@ def _bundle_history(hist):
         pass
     # additions after elaboration (of a module that uses the bundle, as a port or internally; directly or nested in another
     # bundle) are refused and leave the bundle as it is
-    use = (len(hist) + len(hist[0][0]) + len(hist[-1][1])) % 4
+    use = (len(hist) + sum(len(n) + len(k) + len(f) for n, k, f in hist)) % 5
     user = h.Module(name="UserOfSubjectB")
-    if use == 0:
+    if use == 4 and not (model and all(k in ("sig", "port") for k in model.values())):
+        use = 0
+    if use == 4:  # as the bundle after whose members the instances of an instance-bundle type are named (cf. h.Pair / h.Diff)
+        leafm = h.Module(name="LeafOfB")
+        leafm.p = h.Port()
+        user.x = h.Signal()
+        user.tp = h.InstanceBundleType("SubjectBType", bundle=bd)(of=leafm)(p=user.x)
+    elif use == 0:
         user.bb = bd(port=True)
     elif use == 1:
         user.bb = bd()
@@ -519,12 +526,63 @@ def _bundle_history(hist):
                         bd.add(v)
                     else:
                         bd.add(v, name=nm)
-                    return (f"addition to a bundle after elaboration accepted ({form} of a {kind} as {nm!r}, bundle used {['as a port', 'internally', 'nested', 'nested two levels down'][use]})", len(hist))
+                    return (f"addition to a bundle after elaboration accepted ({form} of a {kind} as {nm!r}, bundle used {['as a port', 'internally', 'nested', 'nested two levels down', 'by an instance-bundle type'][use]})", len(hist))
                 except Exception:
                     pass
                 if (dict(bd.namespace), dict(bd.signals), dict(bd.bundles)) != before:
                     return ("a refused post-elaboration addition still changed the bundle", len(hist))
     return (None, len(hist))
+
+
+def _alias_history(hist):
+    """Histories in which one object is also stored under a second name (`m.b = m.a`) and names are taken over afterwards.
+    Ops: (name, kind, form) as elsewhere, or (name, "alias", form): the object held under the *other* name is stored under
+    `name` too.  Only what the statement says is demanded: get / attribute / namespace / the kind views agree on every held
+    name, nothing else is listed, ports are the port-visible signals, and every held object reports the module as its parent."""
+    import hdl21 as h
+
+    m, env = fresh_module(h)
+    objs = {"z": env["z"]}
+    kinds = {"z": "sig"}
+    for step, op in enumerate(hist):
+        name, kind, form = op
+        try:
+            if kind == "alias":
+                other = [n for n in NAMES if n != name][0]
+                v = objs[other]
+                if form == "setattr":
+                    setattr(m, name, v)
+                else:
+                    v.name = name
+                    m.add(v)
+                kinds[name] = kinds[other]
+            else:
+                v = apply_op(h, m, env, op)
+                kinds[name] = kind
+            objs[name] = v
+        except Exception as e:
+            return ("op raised: " + short_exc(e), step)
+        views = {vn: getattr(m, vn) for vn in set(VIEW_OF.values())}
+        for n, o in objs.items():
+            if m.get(n) is not o or getattr(m, n) is not o or m.namespace.get(n) is not o:
+                return (f"get / attribute access / namespace disagree on {n!r}", step)
+            for vk, vn in VIEW_OF.items():
+                if (n in views[vn]) != (vk == kinds[n]) or (vk == kinds[n] and views[vn][n] is not o):
+                    return (f"{n!r} ({kinds[n]}) and the `{vn}` view disagree", step)
+            if getattr(o, "_parent_module", None) is not m:
+                return (f"the object held as {n!r} does not report the module as its parent", step)
+        if set(m.namespace) != set(objs) or any(set(view) - set(objs) for view in views.values()):
+            return ("the namespace or a view lists a name the module does not hold", step)
+    return (None, len(hist))
+
+
+def alias_enabled(hist):
+    held = set()
+    for name, kind, form in hist:
+        if kind == "alias" and not ({n for n in NAMES if n != name} <= held):
+            return False
+        held.add(name)
+    return any(k == "alias" for _n, k, _f in hist)
 
 
 def enabled(hist):
@@ -604,9 +662,20 @@ def run(ctx):
         if prob:
             report(ctx, "bundle", hist, prob, step)
     ctx.fam("bundle_histories", histories=len(items), max_len=LB)
+    # (5) one object under two names
+    aops = [(n, k, f) for n in NAMES for k in ("sig", "port", "inst", "alias") for f in ("setattr", "add_named")]
+    LA = 4 if ctx.quick else 5
+    items = [list(c) for n in range(2, LA + 1) for c in itertools.product(aops, repeat=n) if alias_enabled(c)]
+    res = ctx.pmap(_alias_history, items, chunk=200)
+    for hist, (prob, step) in zip(items, res):
+        ctx.count(states=1, transitions=len(hist), traces_validated_against_impl=1)
+        ctx.outcome("alias:" + ("ok" if prob is None else prob[:30]))
+        if prob:
+            report(ctx, "module_alias", hist, prob, step)
+    ctx.fam("alias_histories", histories=len(items), max_len=LA)
     ctx.sample(dict(subject="module", history=[list(o) for o in items[-1]][:3]))
     ctx.sample(dict(subject="module", history=[["a", "sig", "setattr"], ["a", "inst", "setattr"]]))
-    ctx.assume("storing one object under two different names is not in the alphabet (the statement does not say what it should do)",
+    ctx.assume("histories that store one object under two names are explored separately and judged only on what the statement says (agreement of the views, parent); names and exports of such states are not judged",
                "state merging keys on the reference model's state, which equals the implementation's observable state in every non-violating state")
 
 
@@ -626,6 +695,8 @@ def replay(body):
     c = body["case"]
     if "sequence" in c:
         r = _class_vs_proc([tuple(x) for x in c["sequence"]])
+    elif c["subject"] == "module_alias":
+        r = _alias_history([tuple(x) for x in c["history"]])[0]
     elif c["subject"] == "module":
         r = _history([tuple(x) for x in c["history"]])[0]
     else:
